@@ -383,7 +383,7 @@ outer:
 		utfb := make([]byte, len(b)*4) // worst case
 		for l := 1; l <= len(b); l++ {
 			s.decoder.Reset()
-			nout, nin, _ := s.decoder.Transform(utfb, b[:l], true)
+			nout, nin, _ := s.decoder.Transform(utfb, b[:l], false)
 
 			if nout != 0 {
 				r, _ := utf8.DecodeRune(utfb[:nout])
